@@ -519,65 +519,77 @@ def _closure(model: Model, outer: str, name: str) -> FuncInfo:
 
 def rule_c16_r3(model: Model) -> RuleResult:
     r = RuleResult('C16-R3', 'eq / order / hash / repr use exactly the fields flagged for them, in field order', floor=9)
-    # __eq__
-    f = _closure(model, '_make_eq', '__eq__')
-    cfg = cfg_of(model, f)
-    nz = Normalizer(model, f, cfg, param_map=_pm(f))
-    r.analysed.add(f.qualname)
-    rets = [nz.expr(n.ast.value, n) for n in cfg.live_nodes() if n.kind == 'return' and n.ast is not None and n.ast.value is not None]
-    r.instances += 1
-    want_eq = 'all(GEN($other.<F> == self.<F> if TRUTHY(F.compare)))'
-    got = [x.replace('getattr(self, ELEM(FREE:fields).name)', 'self.<F>').replace('getattr($other, ELEM(FREE:fields).name)', '$other.<F>')
-           .replace('ELEM(FREE:fields)', 'F') for x in rets]
-    r.sample({'__eq__ returns': got})
-    if want_eq in got and all(x in (want_eq, 'False', 'builtins.NotImplemented') for x in got):
-        r.ok()
-    else:
-        r.fail(f.qualname, f"returns {got}", f.loc(), "equality must compare exactly the compare-fields pairwise (and nothing else)")
-    r.instances += 1
-    lits = [nz.literal(n.ast, n)[0] for n in cfg.nodes if n.kind == 'cond']
-    if any('__origin__' in x for x in lits):
-        r.ok()
-    else:
-        r.fail(f.qualname, f"class test {lits}", f.loc(), "equality must compare the classes modulo generic parameters (through __origin__)")
-    # ordering
-    f = _closure(model, '_make_ord', '_pane_ord')
-    cfg = cfg_of(model, f)
-    nz = Normalizer(model, f, cfg, param_map=_pm(f))
-    r.analysed.add(f.qualname)
-    r.instances += 1
-    lits2 = {('' if p else 'not ') + a for n in cfg.nodes if n.kind == 'cond' for (a, p) in [nz.literal(n.ast, n)]}
-    rets = sorted({nz.expr(n.ast.value, n) for n in cfg.live_nodes() if n.kind == 'return' and n.ast is not None and n.ast.value is not None})
-    r.sample({'_pane_ord': sorted(lits2), 'returns': rets})
-    g = lambda s: 'getattr(%s, ELEM(FREE:fields).name)' % s  # noqa: E731
-    ok = ('not TRUTHY(ELEM(FREE:fields).compare)' in lits2 or 'TRUTHY(ELEM(FREE:fields).compare)' in lits2) \
-        and any(x in lits2 for x in (f"{g('$other')} == {g('self')}", f"not {g('$other')} == {g('self')}")) \
-        and '0' in rets and 'builtins.NotImplemented' in rets \
-        and f"(1 if {g('$other')} < {g('self')} else Neg... )" or True
-    tern = [x for x in rets if x.startswith('(')]
-    ok = ok and tern == [f"(1 if {g('$other')} < {g('self')} else USub(1))"]
-    if ok:
-        r.ok()
-    else:
-        r.fail(f.qualname, f"conditions {sorted(lits2)} returns {rets}", f.loc(),
-               "ordering must be the lexicographic order of the compare-fields: skip non-compare fields, skip equal fields, decide on the first difference")
-    table = {'__lt__': ('$o < 0', True), '__le__': ('0 < $o', False), '__gt__': ('0 < $o', True), '__ge__': ('$o < 0', False)}
-    for name, want in table.items():
-        f = _closure(model, '_make_ord', name)
-        cfg = cfg_of(model, f)
-        nz = Normalizer(model, f, cfg, param_map=_pm(f))
+    # __eq__ / ordering: outcome formulas (pane_sa.outcomes) compared, as Boolean functions, with the specification
+    from ..outcomes import Outcomes, at_first, equivalent, exists, f_and, f_not, f_or, var, variables, TRUE as O_TRUE, FALSE as O_FALSE
+
+    def roles(fields_param: str) -> t.Callable[[str], str]:
+        el = r'ELEM\((?:FREE:)?' + re.escape(fields_param) + r'\)'
+        table = [
+            (rf'^TRUTHY\({el}\.compare\)$', 'COMPARE'),
+            (rf'^getattr\(\$other, {el}\.name\) == getattr\(self, {el}\.name\)$', 'FIELD_EQ'),
+            (rf'^getattr\(\$other, {el}\.name\) < getattr\(self, {el}\.name\)$', 'SELF_GT'),
+            (rf'^getattr\(self, {el}\.name\) < getattr\(\$other, {el}\.name\)$', 'SELF_LT'),
+            (r"^\$other\.__class__\.__dict__\.get\('__origin__', \$other\.__class__\) == self\.__class__\.__dict__\.get\('__origin__', self\.__class__\)$",
+             'ORIGIN_EQ'),
+            (r'^\$other\.__class__ == self\.__class__$', 'CLASS_EQ'),
+            (r'^type\(\$other\) == type\(self\)$', 'CLASS_EQ'),
+            (r'^type\(\$other\) is type\(self\)$', 'CLASS_EQ'),
+            (r'^\$other\.__class__ is self\.__class__$', 'CLASS_EQ'),
+            (r'^(?:[\w.]*\.|FREE:|FUNC:)?_?\w*ord\w*\(self, \$other\) is builtins\.NotImplemented$', 'ORD_NI'),
+            (r'^builtins\.NotImplemented is (?:[\w.]*\.|FREE:|FUNC:)?_?\w*ord\w*\(self, \$other\)$', 'ORD_NI'),
+            (r'^(?:[\w.]*\.|FREE:|FUNC:)?_?\w*ord\w*\(self, \$other\) < 0$', 'ORD_LT0'),
+            (r'^0 < (?:[\w.]*\.|FREE:|FUNC:)?_?\w*ord\w*\(self, \$other\)$', 'ORD_GT0'),
+        ]
+
+        def m(text: str) -> str:
+            for pat, role in table:
+                if re.match(pat, text):
+                    return role
+            return text
+        return m
+
+    def check(fn: FuncInfo, outer: FuncInfo, spec: t.Dict[str, t.Any], others_allowed: t.Set[str], what: str) -> None:
         r.instances += 1
-        rn = [n for n in cfg.live_nodes() if n.kind == 'return' and n.ast is not None and isinstance(n.ast.value, ast.IfExp)]
-        if len(rn) != 1:
-            raise AnalysisError(f"{f.loc()}: {name} is not `NotImplemented if ... else <comparison>`")
-        e = rn[0].ast.value
-        got = nz.literal(e.orelse, rn[0])
-        got = (re.sub(r'(pane\.classes\._make_ord\.|FUNC:|FREE:)_pane_ord\(self, \$other\)', '$o', got[0]), got[1])
-        r.sample({name: got})
-        if got == want and 'NotImplemented' in unparse(e.body):
-            r.ok()
+        r.analysed.add(fn.qualname)
+        fields_param = outer.params[1] if len(outer.params) > 1 else 'fields'
+        oc = Outcomes(model, fn, _pm(fn), atom_map=roles(fields_param))
+        got = oc.by_value()
+        shown = {f"{k[0]} {k[1]}": sorted(variables(v)) for k, v in got.items()}
+        r.sample({fn.name: shown})
+        problems = []
+        for value, want in spec.items():
+            have = got.get(('return', value), O_FALSE)
+            if not equivalent(have, want):
+                unknown = sorted(v for v in variables(have) if not (v.isupper() or v.startswith('E[') or v.startswith('@first:')))
+                problems.append(f"returns {value} under a different condition" + (f" (depends on {unknown})" if unknown else ''))
+        for (kind, value) in got:
+            if kind == 'raise':
+                problems.append(f"raises {value}")
+            elif value not in spec and value not in others_allowed:
+                problems.append(f"returns {value}")
+        if problems:
+            r.fail(fn.qualname, '; '.join(problems)[:300], fn.loc(), what)
         else:
-            r.fail(f.qualname, f"{'' if got[1] else 'not '}{got[0]}", f.loc(), f"{name} must be {'' if want[1] else 'not '}{want[0]} of the three-way comparison")
+            r.ok()
+
+    S = f_and(var('COMPARE'), f_not(var('FIELD_EQ')))     # the element decides: it is compared and differs
+    elem = lambda nm: nm.isupper()                          # noqa: E731
+    outer_eq = model.func(f'{CLS}._make_eq')
+    check(_closure(model, '_make_eq', '__eq__'), outer_eq,
+          {'True': f_and(var('ORIGIN_EQ'), f_not(exists(S)))}, {'False', 'NotImplemented'},
+          "equality must hold exactly when the classes agree modulo generic parameters (__origin__) and every compare-field is pairwise equal")
+    outer_ord = model.func(f'{CLS}._make_ord')
+    check(_closure(model, '_make_ord', '_pane_ord'), outer_ord,
+          {'NotImplemented': f_not(var('CLASS_EQ')),
+           '0': f_and(var('CLASS_EQ'), f_not(exists(S))),
+           '1': f_and(var('CLASS_EQ'), exists(S), at_first(S, f_and(S, var('SELF_GT')), elem)),
+           '-1': f_and(var('CLASS_EQ'), exists(S), at_first(S, f_and(S, f_not(var('SELF_GT'))), elem))}, set(),
+          "ordering must be the lexicographic order of the compare-fields: skip non-compare fields, skip equal fields, decide on the first difference")
+    ni, lt0, gt0 = var('ORD_NI'), var('ORD_LT0'), var('ORD_GT0')
+    for name, truth in (('__lt__', lt0), ('__le__', f_not(gt0)), ('__gt__', gt0), ('__ge__', f_not(lt0))):
+        check(_closure(model, '_make_ord', name), outer_ord,
+              {'NotImplemented': ni, 'True': f_and(f_not(ni), truth), 'False': f_and(f_not(ni), f_not(truth))}, set(),
+              f"{name} must be derived from the three-way comparison (NotImplemented passed on)")
     # hash
     f = _closure(model, '_make_hash', '__hash__')
     cfg = cfg_of(model, f)
@@ -939,4 +951,71 @@ def rule_c15_r4(model: Model) -> RuleResult:
             r.fail(f.qualname, f"{k[1]} <- {k[2]} when {k[3]}", locs[k],
                    "positional values are zipped with converters of fields other than the ones they are bound to (the constructor binds them to the "
                    "init fields only): after an init=False field every value is validated against its neighbour's type")
+    return r
+
+
+def rule_c17_r6(model: Model) -> RuleResult:
+    """C17: a class records only the fields it declares itself; the merged (inherited + own) table is rebuilt by every subclass from the MRO."""
+    r = RuleResult('C17-R6', "the class record keeps the class's own field declarations only (filled from its own annotations, never from the bases)",
+                   floor=2)
+    f = model.func(f'{CLS}._process')
+    cfg = cfg_of(model, f)
+    nz = Normalizer(model, f, cfg, param_map=_pm(f))
+    r.analysed.add(f.qualname)
+    store = info = None
+    for n in cfg.live_nodes():
+        for root in node_exprs(n):
+            for c in walk_no_nested(root):
+                if isinstance(c, ast.Call) and (model.resolve(c.func, f.module, f) or '').endswith('.PaneInfo'):
+                    store, info = n, c
+    if store is None or info is None:
+        raise AnalysisError(f"{f.loc()}: _process: PaneInfo(...) construction not found")
+    kw = {k.arg: k.value for k in info.keywords if k.arg}
+    if 'specs' not in kw:
+        raise AnalysisError(f"{f.loc(info)}: PaneInfo(...) built without specs=")
+    v = kw['specs']
+    r.instances += 1
+    if not isinstance(v, ast.Name):
+        r.fail(f.qualname, f"specs={unparse(v)[:80]}", f.loc(info), "the recorded declarations are computed, not the class's own table")
+        return r
+    defs = cfg.reaching().at(store, v.id)
+    empty = all(d.kind == 'assign' and not d.path and ((isinstance(d.value, ast.Dict) and not d.value.keys) or
+                                                          (isinstance(d.value, ast.Call) and unparse(d.value) == 'dict()')) for d in defs)
+    r.sample({'recorded table': v.id, 'starts empty': empty})
+    if defs and empty:
+        r.ok()
+    else:
+        r.fail(f.qualname, f"specs={v.id} is not a table started empty for this class", f.loc(info),
+               "the class records inherited fields as if it declared them: with a diamond, a base that merely inherits a field overrides "
+               "the redeclaration of a sibling base (wrong type and default)")
+    # everything put into it comes from the class's own annotations
+    r.instances += 1
+    bad = []
+    for n in cfg.live_nodes():
+        st = n.ast
+        touched = False
+        if n.kind == 'stmt' and isinstance(st, (ast.Assign, ast.AugAssign)):
+            tgts = st.targets if isinstance(st, ast.Assign) else [st.target]
+            touched = any(isinstance(tg, ast.Subscript) and isinstance(tg.value, ast.Name) and tg.value.id == v.id for tg in tgts)
+        if n.kind == 'stmt' and isinstance(st, ast.Expr) and isinstance(st.value, ast.Call) and isinstance(st.value.func, ast.Attribute) \
+                and isinstance(st.value.func.value, ast.Name) and st.value.func.value.id == v.id and st.value.func.attr in ('update', 'setdefault', '__setitem__'):
+            touched = True
+        if not touched:
+            continue
+        if not any(d in cfg.reaching().at(n, v.id) for d in defs):
+            continue            # another table that happens to share the name earlier in the function
+        own = False
+        for lp in n.loop_of:
+            if isinstance(lp, ast.For):
+                ln = next((x for x in cfg.live_nodes() if x.kind == 'iter' and x.ast is lp), None)
+                form = nz.expr(lp.iter, ln) if ln is not None else ''
+                if re.search(r'get_type_hints\(\$?cls\)|\$?cls\.__annotations__|\$?cls\.__dict__', form):
+                    own = True
+        if not own:
+            bad.append(n)
+    if bad:
+        r.fail(f.qualname, f"{v.id} is filled outside the loop over the class's own annotations", f.loc(bad[0].ast),
+               "entries that do not come from the class's own annotations are recorded as its declarations")
+    else:
+        r.ok()
     return r
